@@ -22,6 +22,11 @@ SRC_GLOBS = ["src/containers/*.c", "src/utilities/*.c", "src/internal/*.c", "src
 SAN_FLAGS = ["-fsanitize=address,undefined", "-fno-sanitize-recover=all", "-fno-omit-frame-pointer"]
 IMPL_VERSION = "3"   # bump when the layout of build/impl-* changes
 BASE_FLAGS = ["-std=gnu99", "-O1", "-g", "-D" + GUARD, "-D_GNU_SOURCE", "-w"]
+# coverage measurement of the correspondence (covreport.py): VERIF_COV=1 instruments the library
+# with gcov counters; the .gcda files accumulate next to the objects in build/impl-*/
+COV = bool(os.environ.get("VERIF_COV"))
+if COV:
+    BASE_FLAGS = BASE_FLAGS + ["--coverage", "-fprofile-update=atomic"]
 
 
 def log(*a):
@@ -92,7 +97,7 @@ def build_impl(variant="asan"):
         # drop stale builds of this variant (disk hygiene)
         for old in glob.glob(os.path.join(BUILD, "impl-%s-*" % variant)):
             shutil.rmtree(old, ignore_errors=True)
-        tmp = d + ".tmp"
+        tmp = d if COV else d + ".tmp"   # gcov records the object path at compile time
         shutil.rmtree(tmp, ignore_errors=True)
         os.makedirs(tmp)
         srcs = repo_sources()
@@ -117,7 +122,8 @@ def build_impl(variant="asan"):
         r = sh(["objcopy"] + ren + [os.path.join(tmp, "libq.a"), os.path.join(tmp, "libqw.a")])
         if r.returncode != 0:
             raise BuildError(r.stderr)
-        os.rename(tmp, d)
+        if tmp != d:
+            os.rename(tmp, d)
     return d
 
 
